@@ -26,7 +26,7 @@ from geomgen import Gen, Node, PF, c, v, env_tokens, DIM, dy
 ATOL, RTOL, BATOL = "1/100000000", "1/100000", "1/100000"
 TOL = 3e-5            # float32 implementation vs exact model, relative to 1 + largest |coordinate|
 
-F_ROWS = "bbox_rows_in_composite"
+F_ROWS = None   # (closed: repaired in /repo ef88415)
 F_DEP = "product_dependent_bbox_sampled"
 
 
@@ -359,8 +359,6 @@ def classify(case):
     node = geomgen.from_json(case["dom"])
     if case["mode"] == "depprod-nodata":
         return F_DEP
-    if case["k"] >= 2 and rows_clash(node):
-        return F_ROWS
     return None
 
 
@@ -370,20 +368,15 @@ def per_row(node):
         return False
     if k in ("translate", "rotate"):
         return any(p.vars() for p in node.pfs) or per_row(node.kids[0])
-    if k == "cut":
+    if k == "cut" or k.startswith("bdry"):
         return per_row(node.kids[0])
-    return any(per_row(x) for x in node.kids)
+    return False      # union / intersection / product reduce per-row boxes of their operands to the common box
 
 
-def rows_clash(node):
-    k = node.kind
-    if node.is_prim():
-        return False
-    if k in ("union", "inter", "prod"):
-        return any(per_row(x) or rows_clash(x) for x in node.kids)
-    if k == "cut":
-        return rows_clash(node.kids[0])
-    return rows_clash(node.kids[0])
+def walk(node):
+    yield node
+    for kid in node.kids:
+        yield from walk(kid)
 
 
 def slim(case):
@@ -449,7 +442,11 @@ def run(ctx, rep, cases=None):
         for kd in set(node.kinds()):
             rep.count("node:" + kd)
         if per_row(node):
+            rep.count("one-box-per-row-expected")
+        if any(p.vars() for n_ in walk(node) if n_.kind in ("translate", "rotate") for p in n_.pfs):
             rep.count("motion-depends-on-parameters")
+            if cs["k"] >= 2 and not per_row(node):
+                rep.count("per-row-operand-under-union/intersection/product")
         nontrivial = node.depth() > 1 or bool(node.free_vars())
         pub = {k_: v_ for k_, v_ in res.items() if k_ not in ("dom_obj", "params")}
         rep.case(dict(dom=cs["dom"], rows=cs["rows"], k=cs["k"]), nontrivial,
